@@ -296,7 +296,7 @@ SEval(node, env, st) ==
          SR(st, CellKey(env, node.i[1]))
     [] k = "PRef" ->       \* pass on my own by-reference parameter
          SR(st, env.params[node.i[1]])
-    [] k \in {"Comment", "Pragma"} -> SEval(a[1], env, st)        \* annotations are transparent
+    [] k \in {"Comment", "Pragma", "Nonce"} -> SEval(a[1], env, st)        \* annotations are transparent
     [] OTHER -> SFail(st, "spec-unknown-kind:" \o k)
 
 \* the outcome of a whole program
